@@ -103,3 +103,22 @@ package dashboards
 //@   site call delete #1:
 //@     ghostset ghost(0, "dfItemsRemoved") = 1
 //@ end
+
+// C20 (an invalid update is rejected without effect on other objects): a folder
+// may not be moved into its own subtree — it would cut the folder and everything
+// below it off the root.  Proved here are only the two ends of the ancestor walk
+// (moving a folder below itself is refused; moving it to the top level is
+// allowed); the walk itself is a transitive closure over a string-keyed map and
+// is decided by the bounded stand-in only.
+//@ func wouldCreateCircularReference
+//@   props C20
+//@   requires structure != nil
+//@   pure
+//@   ensures [a-folder-is-never-moved-below-itself] implies(newParentID == folderID && folderID != "", result)
+//@   ensures [a-move-to-the-top-level-is-allowed] implies(newParentID == "", !result)
+//@   loop 1:
+//@     invariant implies(newParentID == folderID && folderID != "", slow == newParentID) && implies(newParentID == "", slow == "")
+//@   loop 2:
+//@     invariant true
+//@   bounded dashboards/circularref_test.go Test_Bounded_WouldCreateCircularReference every parent function over 6 folders (parent: none, any of the 6 folders incl. itself, or an id not in the structure: 262144 structures) x every folder to move x 8 new parents (12.6 million calls): refused iff the folder is the new parent or one of its ancestors, allowed when the ancestor chain ends without meeting it, terminates on structures that already hold a cycle
+//@ end
